@@ -70,12 +70,45 @@ def dump_mir(repo=REPO, force=False):
 _prog_cache = {}
 
 
-def load_program(repo=REPO):
+def dump_dep_mir(repo, crate):
+    """MIR of a dependency crate (as resolved by /repo's Cargo.lock), e.g. `subtle`."""
+    os.makedirs(os.path.join(CACHE, 'mir'), exist_ok=True)
+    out = os.path.join(CACHE, 'mir', 'dep-%s-%s.mir' % (crate, _tree_digest(repo)))
+    if not os.path.exists(out) or os.path.getsize(out) == 0:
+        env = dict(os.environ)
+        env['CARGO_TARGET_DIR'] = os.path.join(CACHE, 'mir-target')
+        env['CARGO_NET_OFFLINE'] = 'true'
+        # force a rebuild of the dependency so that rustc prints its MIR
+        subprocess.run(['cargo', '+nightly', 'clean', '--offline', '-p', crate, '--manifest-path', os.path.join(repo, 'Cargo.toml')],
+                       env=env, stdout=subprocess.DEVNULL, stderr=subprocess.DEVNULL)
+        r = subprocess.run(['cargo', '+nightly', 'rustc', '--offline', '-p', crate, '--manifest-path', os.path.join(repo, 'Cargo.toml'), '--',
+                            '-Zunpretty=mir', '-C', 'debug-assertions=off', '-C', 'overflow-checks=on'],
+                           env=env, stdout=subprocess.PIPE, stderr=subprocess.PIPE)
+        if r.returncode != 0 or not r.stdout:
+            sys.stderr.write(r.stderr.decode('utf-8', 'replace')[-3000:])
+            raise RuntimeError('MIR dump of %s failed' % crate)
+        with open(out, 'wb') as f:
+            f.write(r.stdout)
+    return open(out, encoding='utf-8').read()
+
+
+def load_program(repo=REPO, deps=()):
     text, info = dump_mir(repo)
-    key = info['digest']
+    key = (info['digest'], tuple(deps))
     if key not in _prog_cache:
         _prog_cache.clear()
-        _prog_cache[key] = mirparse.parse_program(text)
+        prog = mirparse.parse_program(text)
+        for crate in deps:
+            dp = mirparse.parse_program(dump_dep_mir(repo, crate))
+            for f in dp.fns:
+                f.crate = crate
+                prog.add(f)
+            for f in dp.consts.values():
+                if f.name not in prog.consts:
+                    prog.add(f)
+        _prog_cache[key] = prog
+    info = dict(info)
+    info['deps'] = list(deps)
     return _prog_cache[key], info
 
 
